@@ -118,13 +118,13 @@ func (t *NonNull) CoerceOut(v interface{}) (interface{}, error) {
 //   ofType: __Type
 func (t *NonNull) Resolve(field *Field, args map[string]interface{}) (interface{}, error) {
 	switch field.Name {
-	case kindStr, descriptionStr:
+	case kindStr:
 		return "NON_NULL", nil
 	case nameStr:
 		return t.Name(), nil
 	case ofTypeStr:
 		return t.Base, nil
-	case interfacesStr, fieldsStr, possibleTypesStr, enumValuesStr, inputFieldsStr:
+	case descriptionStr, interfacesStr, fieldsStr, possibleTypesStr, enumValuesStr, inputFieldsStr:
 		return nil, nil
 	}
 	return nil, fmt.Errorf("type __Type does not have field %s", field)
